@@ -408,12 +408,20 @@ func readerScenario(s *Sim, params map[string]string) {
 			}
 		}
 	}
+	beyondOK := t.Intn("cfg", 2) == 0
 	pickOffset := func() int64 {
 		switch t.Intn("work", 6) {
 		case 0:
 			return kafka.FirstOffset
 		case 1:
 			return kafka.LastOffset
+		case 2:
+			// a position the partition has not reached yet: the reader waits
+			// for it and resumes exactly there
+			if beyondOK {
+				return p.LEO + int64(t.Range("work", 1, 4))
+			}
+			fallthrough
 		default:
 			if p.LEO == p.LogStart {
 				return p.LogStart
